@@ -102,13 +102,17 @@ XalanOutputStream::write(
 
     if (theBufferLength + m_buffer.size() > m_bufferSize)
     {
-        flushBuffer();
+        flushBuffer(true);
     }
 
-    if (theBufferLength > m_bufferSize)
+    // A long run is written directly, unless that would separate the
+    // halves of a surrogate pair: the flush above may have held back a
+    // leading half, and the run itself may end with one.
+    if (theBufferLength > m_bufferSize &&
+        m_buffer.empty() == true &&
+        (m_writeAsUTF16 == true ||
+         isLeadingSurrogate(theBuffer[theBufferLength - 1]) == false))
     {
-        assert(m_buffer.empty() == true);
-
         doWrite(theBuffer, theBufferLength);
     }
     else
@@ -116,6 +120,11 @@ XalanOutputStream::write(
         m_buffer.insert(m_buffer.end(),
                         theBuffer,
                         theBuffer + theBufferLength);
+
+        if (theBufferLength > m_bufferSize)
+        {
+            flushBuffer(true);
+        }
     }
 }
 
@@ -203,6 +212,23 @@ XalanOutputStream::transcode(
 
             if (theTotalBytesEaten == theBufferLength)
             {
+                fDone = true;
+            }
+            else if (theSourceBytesEaten == 0 && theTargetBytesEaten == 0)
+            {
+                // The transcoder made no progress although the target has
+                // room (for example, the input ends with half of a surrogate
+                // pair).  Growing the destination again cannot help, so stop
+                // instead of looping until memory is exhausted.
+                if (m_throwTranscodeException == true)
+                {
+                    XalanDOMString  theExceptionBuffer(theDestination.getMemoryManager());
+
+                    throw TranscodingException(
+                            theExceptionBuffer,
+                            0);
+                }
+
                 fDone = true;
             }
             else
@@ -316,16 +342,47 @@ XalanOutputStream::canTranscodeTo(XalanUnicodeChar  theChar) const
 void
 XalanOutputStream::flushBuffer()
 {
-    if (m_buffer.empty() == false)
-    {
-        CollectionClearGuard<BufferType>    theGuard(m_buffer);
-
-        assert(size_type(m_buffer.size()) == m_buffer.size());
-
-        doWrite(&*m_buffer.begin(), size_type(m_buffer.size()));
-    }
+    flushBuffer(false);
 
     assert(m_buffer.empty() == true);
+}
+
+
+
+void
+XalanOutputStream::flushBuffer(bool     fHoldBackSurrogate)
+{
+    if (m_buffer.empty() == false)
+    {
+        assert(size_type(m_buffer.size()) == m_buffer.size());
+
+        // The two halves of a surrogate pair must reach the transcoder
+        // together.  When the buffer fills up and happens to end with the
+        // first half, keep that one unit until the second half arrives.
+        const XalanDOMChar  theLast = m_buffer.back();
+
+        const bool  fHoldBack =
+            fHoldBackSurrogate == true &&
+            m_writeAsUTF16 == false &&
+            isLeadingSurrogate(theLast) == true;
+
+        const size_type     theLength =
+            size_type(m_buffer.size()) - (fHoldBack == true ? 1 : 0);
+
+        {
+            CollectionClearGuard<BufferType>    theGuard(m_buffer);
+
+            if (theLength != 0)
+            {
+                doWrite(&*m_buffer.begin(), theLength);
+            }
+        }
+
+        if (fHoldBack == true)
+        {
+            m_buffer.push_back(theLast);
+        }
+    }
 }
 
 
